@@ -69,10 +69,10 @@ from typing import Literal, Union, Optional, List
 import utype
 from utype import Schema, DataClass, Field, Options
 class A({base}):
-    kind: Literal['a']
+    kind: Literal[{ta}]
     x: int
 class B({base}):
-    kind: Literal['b']
+    kind: Literal[{tb}]
     y: str = ''
 class H({base}):
     __options__ = Options(**OPTS)
@@ -105,7 +105,9 @@ def make_disc_case(rng):
             return {"item": body}             # discriminator key missing
         inputs.append(mk)
     return {"fam": "disc", "base": rng.choice(["Schema", "DataClass"]), "opts": dict(rng.choice(OPTS)), "inputs": inputs, "rng": rng,
-            "spec": ("leaf", "int"), "route": "disc"}
+            "spec": ("leaf", "int"), "route": "disc",
+            # the tags of one union may be of different types (str / int / bool are all allowed)
+            "tags": rng.choice([("'a'", "'b'"), ("'a'", "'b'"), ("1", "'v2'"), ("'a'", "2"), ("True", "'b'")])}
 
 
 def _stock_types():
@@ -253,7 +255,7 @@ def run_case(case, ctx):
                 ctx.count("discriminated_union_cases")
                 from ..routes import Entry
                 ns = {"OPTS": {k: v for k, v in opts.items() if k != "max_errors" or opts.get("collect_errors")}}
-                exec(DISC_SRC.format(base=case["base"]), ns)
+                exec(DISC_SRC.format(base=case["base"], ta=case.get("tags", ("'a'", "'b'"))[0], tb=case.get("tags", ("'a'", "'b'"))[1]), ns)
                 Hcls = ns["H"]
                 for c in (ns["A"], ns["B"], Hcls):
                     b.created.append(c)
